@@ -91,6 +91,18 @@ pub fn run(ctx: &mut Ctx) {
             emit(ctx, "c15r", 8192, &[], &head, "eof", &[], 0);
         }
     }
+    // long Cookie fields: 50, 51, 60 and 180 pairs, a late duplicate that overrides an early one, a late segment without '='
+    for npairs in [49usize, 50, 51, 60, 180] {
+        for variant in 0..3 {
+            idx += 1;
+            if !ctx.mine(idx) { continue; }
+            let mut pairs: Vec<String> = (0..npairs).map(|k| format!("c{k}=v{k}")).collect();
+            if variant == 1 { pairs[0] = "sid=stale".to_string(); let last = pairs.len() - 1; pairs[last] = "sid=fresh".to_string(); }
+            if variant == 2 { let last = pairs.len() - 1; pairs[last] = "novalue".to_string(); }
+            let head = format!("GET / HTTP/1.1\r\nCookie: a=b\r\nCookie: {}\r\nCookie: z=9\r\n\r\n", pairs.join("; "));
+            emit(ctx, "c15r", 8192, &[], head.as_bytes(), "eof", &[], 0);
+        }
+    }
     // every Cookie value of up to 6 (7) symbols over {a = ; " SP}: quotes (balanced or not) never shield a ';'
     let calpha: [u8; 5] = [b'a', b'=', b';', b'"', b' '];
     let cmax = if ctx.thorough() { 7 } else { 6 };
@@ -114,7 +126,7 @@ pub fn run(ctx: &mut Ctx) {
     let names: Vec<Vec<u8>> = vec![b"a".to_vec(), b"SID".to_vec(), TOKEN.to_vec(), b"__Host-x".to_vec()];
     let values: Vec<Vec<u8>> = vec![b"".to_vec(), b"v".to_vec(), COOKIE_OCTETS.to_vec(), b"a=b==".to_vec(), b"abc123".to_vec()];
     let domains = ["-", "example.com", "a.b-c.example", "localhost"];
-    let paths = ["-", "/", "/a/b", "/p?q=1&r", "/x y"];
+    let paths = ["-", "/", "/a/b", "/p?q=1&r", "/x y", "/app/", "//", "/a/b//"];
     let ages: Vec<(&str, &str)> = vec![("-", "0"), ("0", "0"), ("1", "0"), ("59", "999999999"), ("0", "500000000"), ("86400", "0"), ("1099511627776", "0"), ("18446744073709551615", "0")];
     let flags = ["-", "0", "1"];
     let sames = ["-", "strict", "lax", "none"];
